@@ -1,0 +1,33 @@
+//go:build verif
+
+package scanner
+
+import (
+	"reflect"
+	"runtime"
+	"strings"
+)
+
+func verifStepName(f stepFunc) string {
+	if f == nil {
+		return "nil"
+	}
+	n := runtime.FuncForPC(reflect.ValueOf(f).Pointer()).Name()
+	if i := strings.LastIndex(n, "."); i >= 0 {
+		n = n[i+1:]
+	}
+	return n
+}
+
+// VerifState reports the control state of the scanner (verification builds only):
+// current step, step stack (top first), cursor, queued events and open-event stack sizes.
+func (s *Scanner) VerifState() (step string, stack []string, cur uint, finds, evs int) {
+	step = verifStepName(s.step)
+	for i := len(s.stepStack) - 1; i >= 0; i-- {
+		stack = append(stack, verifStepName(s.stepStack[i]))
+	}
+	return step, stack, uint(s.curIndex), len(s.finds), len(s.stack)
+}
+
+// VerifStackDepth returns the number of suspended scanners.
+func (s *Stack) VerifStackDepth() int { return len(s.stack) }
